@@ -47,7 +47,7 @@ def gen_h2_spec(r: random.Random, flavor: str) -> dict:
     kinds = []
     for _ in range(n_act):
         when = [r.choice(["head", "end"]), r.randrange(n)]
-        do = r.choice(["rst", "settings-up", "settings-down", "settings-below", "ping", "settings-down-twice", "settings-down-up"])
+        do = r.choice(["rst", "settings-up", "settings-down", "settings-below", "ping", "ping-gate", "settings-down-twice", "settings-down-up"])
         kinds.append(do)
         if do == "settings-down-up":
             # a decrease that is taken back before the withdrawn slots have all been given up
@@ -62,8 +62,8 @@ def gen_h2_spec(r: random.Random, flavor: str) -> dict:
             continue
         if do == "rst":
             actions.append({"when": when, "do": "rst", "code": r.choice([8, 2, 7])})
-        elif do == "ping":
-            actions.append({"when": when, "do": "ping"})
+        elif do in ("ping", "ping-gate"):
+            actions.append({"when": when, "do": do})
         else:
             val = {"settings-up": r.choice([50, 100, 150]), "settings-down": r.choice([2, 3, 5]),
                    "settings-below": 1}[do]
